@@ -221,3 +221,36 @@ W["applies_to_trial"] = dict(
                 domain=lambda: ({"trial_number": t, "IS_DERIVED": d, "WIN": _types.SimpleNamespace(start=s, stride=k)}
                                 for t in range(-1, 12) for d in (False, True) for s in range(0, 4) for k in range(1, 4))),
 )
+
+
+def _trc_call(f, fobj, crossing_size, SC, START, STRIDE):
+    stub = _types.SimpleNamespace(sustain_count=lambda _f: SC)
+    fake = _types.SimpleNamespace(applies_to_trial=lambda u: u - 1 >= START and (u - 1 - START) % STRIDE == 0)
+    return f(stub, fake, crossing_size)
+
+
+_APPL = "ite(applies((j) // SC + 1), 1, 0)"
+W["trials_required_for_crossing"] = dict(
+    id="trials_required_for_crossing", target="sweetpea._internal.cross_block:MultiCrossBlockRepeat.__trials_required_for_crossing", prop=["C16"],
+    params={"f": "obj", "crossing_size": "int"},
+    self_fields={"self.sustain_count(f)": ("SC", "int")},
+    spec_funcs={"applies": (["int"], "bool")},
+    uses={"f.applies_to_trial": dict(params={"t": "int"}, requires=["t >= 1"], returns="bool", ensures=["result == applies(t)"])},
+    requires=["crossing_size >= 0", "SC >= 1"],
+    loops={0: dict(partial=True,
+                   invariant=["trial >= 0", "0 <= counter", "counter <= crossing_size",
+                              f"counter == sum(j, 0, trial, {_APPL})",
+                              "implies(crossing_size == 0, trial == 0)",
+                              "implies(trial > 0 and not applies((trial - 1) // SC + 1), counter != crossing_size)"])},
+    ensures=["result >= 0",
+             # the documented count: exactly `crossing_size` of the first `result` trials have a level of f ...
+             f"sum(j, 0, result, {_APPL}) == crossing_size",
+             "implies(crossing_size == 0, result == 0)",
+             # ... and it is the smallest such number: the last of them is one of the counted trials
+             "result == 0 or applies((result - 1) // SC + 1)"],
+    native=dict(call=lambda fn, f, crossing_size, SC, START, STRIDE: _trc_call(fn, f, crossing_size, SC, START, STRIDE),
+                spec_funcs_from=lambda f, crossing_size, SC, START, STRIDE: {"applies": (lambda u: u - 1 >= START and (u - 1 - START) % STRIDE == 0)},
+                domain=lambda: ({"f": None, "crossing_size": n, "SC": sc, "START": st, "STRIDE": sr}
+                                for n in range(0, 7) for sc in (1, 2, 3) for st in (0, 1, 2) for sr in (1, 2)),
+                spec_funcs={}),
+)
